@@ -278,8 +278,8 @@ def rule_eof(ctx):
         ok = False
         for r in walk_no_nested(fn):
             if isinstance(r, ast.Return) and isinstance(r.value, ast.Call) and last_attr(r.value.func) == "AsyncStreamIterator" and r.value.args:
-                a = r.value.args[0]
-                if isinstance(a, ast.Lambda) and isinstance(a.body, ast.Call) and src(a.body.func) == "self.read" and [src(x) for x in a.body.args] == [cnt] and not a.body.keywords:
+                t = thunk_call(p, fn, r.value.args[0])
+                if t is not None and src(t.func) == "self.read" and [src(x) for x in t.args] == [cnt] and not t.keywords:
                     ok = True
         ctx.ob("C01.EOF", fn, f"{cls}.iter_by_block(count) iterates self.read(count)", ok,
                f"{cls}.iter_by_block does not iterate `self.read(count)` with the caller's block size", construct=f"iter_by_block:{cls}")
@@ -623,19 +623,42 @@ def rule_cli(ctx):
     if gpc is not None:
         bad = None
         reached = False
+        senders = {n_ for n_, f_ in p.methods("Client").items() if any(is_self_call(c_, {"command"}) and c_.args and (literal_prefix(p, c_.args[0], f_)[0] or "").strip() in ("EPSV", "PASV")
+                                                                      for c_ in walk_no_nested(f_))}
+
+        def is_passive_cmd(f, depth):
+            """the called object is (a local alias of / an entry of a local table of) a method that sends EPSV or PASV"""
+            if depth < 0:
+                return False
+            if isinstance(f, ast.Attribute) and isinstance(f.value, ast.Name) and f.value.id == "self":
+                return f.attr in senders
+            if isinstance(f, ast.Subscript):
+                return is_passive_cmd(f.value, depth - 1)
+            if isinstance(f, ast.Dict):
+                return bool(f.values) and all(is_passive_cmd(v, depth - 1) for v in f.values)
+            if isinstance(f, ast.Name):
+                defs = [d_[1] for d_ in local_defs(gpc, f.id) if d_[0] == "assign"]
+                return bool(defs) and all(is_passive_cmd(v, depth - 1) for v in defs if not (isinstance(v, ast.Constant) and v.value is None)) \
+                    and any(not (isinstance(v, ast.Constant) and v.value is None) for v in defs)
+            return False
+        if not senders:
+            raise AnalysisError("anchor=client methods sending EPSV/PASV not found")
         for ev, out in enum_paths(p, gpc, unroll=1):
             asked = False
             nonempty = {src(e[1].operand) for e in ev if e[0] == "branch" and not e[2] and isinstance(e[1], ast.UnaryOp) and isinstance(e[1].op, ast.Not)} | \
                 {src(e[1]) for e in ev if e[0] == "branch" and e[2] and isinstance(e[1], ast.Name)}
             if any(e[0] == "loopexit" and e[2] == 0 and isinstance(e[1], ast.For) and any(isinstance(x, ast.Name) and x.id in nonempty for x in ast.walk(e[1].iter)) for e in ev):
                 continue   # zero iterations over a collection that was just tested non-empty: infeasible
-            attempted = list(evaluated(ev)) + [e[2] for e in ev if e[0] == "exc" and isinstance(e[2], ast.AST)]
-            attempted.sort(key=lambda n: (getattr(n, "lineno", 0), getattr(n, "col_offset", 0)))
+            attempted = []   # in path order: what was evaluated, and the statement an exception interrupted
+            for e in ev:
+                attempted += list(evaluated([e]))
+                if e[0] == "exc" and len(e) > 2 and isinstance(e[2], ast.AST):
+                    attempted.append(e[2])
             for n in attempted:
                 if isinstance(n, FuncT):
                     continue
                 for c in walk_self(n):
-                    if isinstance(c, ast.Call) and (isinstance(c.func, ast.Subscript) and last_attr(c.func.value) == "functions" or is_self_call(c, {"_do_epsv", "_do_pasv"})):
+                    if isinstance(c, ast.Call) and is_passive_cmd(c.func, 6):
                         asked = True
                     if isinstance(c, ast.Call) and is_self_call(c, {"_open_connection"}):
                         reached = True
